@@ -48,8 +48,8 @@ class LedgerPlugin(Plugin):
                 mon.viol("C05", "total_cash_not_conserved", {"got": cash, "initial": led.total_cash0, "where": where})
 
     def observe(self, mon, where):
-        if mon.in_round is not None:
-            return
+        if mon.in_round is not None or mon.ext.get("unsettled"):
+            return  # fills reported by a market but not yet handed to the simulator for settlement
         self.check(mon, where)
 
     def on_callback(self, mon, agent, kind, log):
@@ -912,3 +912,33 @@ class IndexPlugin(Plugin):
         if completed:
             self.check_values(mon, "end", all_times=True)
             self.check_fundamental(mon, "end")
+            self.hostile_components(mon)
+
+    def hostile_components(self, mon):
+        """after the run: the component entry points asked, directly, to take a market twice."""
+        for im in self.idx:
+            comps = im.get_components()
+            fresh = [m for m in mon.markets if m is not im and m not in comps and not isinstance(m, IndexMarket)
+                     and m.outstanding_shares is not None]
+            attempts = [("_add_market", lambda: im._add_market(market=comps[0])),
+                        ("_add_markets", lambda: im._add_markets(markets=[comps[-1]]))]
+            if fresh:
+                x = fresh[0]
+                attempts.append(("_add_markets", lambda: im._add_markets(markets=[x, x])))
+                attempts.append(("_add_markets", lambda: im._add_markets(markets=[x, comps[0]])))
+            for nm, call in attempts:
+                if not hasattr(im, nm):
+                    continue
+                n0 = len(im.get_components())
+                try:
+                    call()
+                except (ValueError, AssertionError):
+                    if len(im.get_components()) != len(set(map(id, im.get_components()))):
+                        mon.viol("C17", "duplicate_component_accepted", {"index": im.name, "via": nm, "rejected_but_kept": True})
+                    mon.probe("duplicate_component_refused")
+                    # a rejected call may have registered the distinct part of its argument; not judged
+                    continue
+                cs = im.get_components()
+                if len(cs) != len(set(map(id, cs))):
+                    mon.viol("C17", "duplicate_component_accepted", {"index": im.name, "via": nm, "components": [c.name for c in cs]})
+                    return
